@@ -33,6 +33,7 @@ class Runner:
         self.drv = ctx.driver
         self.impl = world.ImplWorld(ctx.pool)
         self.bij = world.Bij()
+        self.impl._bij = self.bij
         self.bij.tree_of = {}
         self.log = []          # ops so far (setup included) — the replay
         self.oracles = oracles
@@ -61,7 +62,7 @@ class Runner:
     def step(self, op) -> Step:
         s = Step()
         s.op = op
-        if op["op"] == "w.sort" and isinstance(op.get("key"), dict):
+        if (op["op"] == "w.sort" and isinstance(op.get("key"), dict)) or op["op"] == "w.filter":
             op["_bij"] = self.bij
         s.mop = world.model_op(op, self.impl)
         s.pre = self.snapshot()
@@ -179,7 +180,7 @@ def random_op(rng, impl, ti, *, labels, malformed=0.1, typed=False, ops=None):
     paths = paths_of(t)
     allp = [[]] + paths
     mal = rng.random() < malformed
-    kinds = ops or ["add"] * 5 + ["shortcut"] * 2 + ["addnode"] * 2 + ["addtree", "copykids", "move", "move", "move", "remove", "remove", "removechildren", "sort", "setdata", "setdata", "meta"]
+    kinds = ops or ["add"] * 5 + ["shortcut"] * 2 + ["addnode"] * 2 + ["addtree", "copykids", "move", "move", "move", "remove", "remove", "removechildren", "sort", "setdata", "setdata", "meta", "filter"]
     k = rng.choice(kinds)
     if not paths and k not in ("add", "addtree"):
         k = "add"
@@ -303,6 +304,17 @@ def random_op(rng, impl, ti, *, labels, malformed=0.1, typed=False, ops=None):
             op["a"] = None
             op["did"] = None
         return op
+    if k == "filter":
+        bij = impl._bij
+        p = rng.choice(allp)
+        start = impl.node(ti, p)
+        tags = ["retTrue", "retTrue", "retFalse", "retFalse", "retNone", "retSkipInst", "retSkipSelfInst", "retSelectCls", "raiseStop", "raiseSkip"]
+        tbl = {}
+        for nd in start.iterator():
+            mid = bij.i2m.get(id(nd))
+            if mid is not None:
+                tbl[str(mid)] = rng.choice(tags)
+        return {"op": "w.filter", "t": ti, "n": p, "v": tbl, "tree_api": rng.random() < 0.6}
     if k == "meta":
         n = rng.choice(paths)
         kind = rng.choice(["set", "set", "clear", "update"])
